@@ -38,7 +38,8 @@ DiagramsVerdict(c) ==
      ELSE IF c.xlabel # "Birth" \/ c.ylabel # (IF c.lifetime = 1 THEN "Lifetime" ELSE "Death") THEN <<"fail", "axis-labels", 0>>
      ELSE IF c.stitle # c.title THEN <<"fail", "title", 0>>
      ELSE IF c.haslegend # c.legend THEN <<"fail", "legend-presence", 0>>
-     ELSE IF c.legend = 1 /\ \E i \in 1..Len(sel) : ~\E t \in 1..Len(c.legtexts) : c.legtexts[t] = c.labels[sel[i]] THEN <<"fail", "legend-texts", 0>>
+     \* legend texts are only prescribed when the caller passed labels (the default label text is not part of the property)
+     ELSE IF c.legend = 1 /\ Len(c.labels) > 0 /\ \E i \in 1..Len(sel) : ~\E t \in 1..Len(c.legtexts) : c.legtexts[t] = c.labels[sel[i]] THEN <<"fail", "legend-texts", 0>>
      ELSE <<"ok", "", 0>>
 \* matching plots: segments in 1/q ticks with q even, so that the perpendicular foot ((b+d)/2, (b+d)/2) is on the lattice
 PadD(X) == IF X = <<>> THEN << <<0, 0>> >> ELSE X      \* an empty diagram is drawn as its placeholder, the diagonal point (0,0), index 0
